@@ -37,6 +37,9 @@ CHECKS = {
  "C09": dict(design="3/C09", technique="exhaustive enumeration of missingness patterns (all single cells, all pairs in rows 0-3, whole-row patterns over column subsets) x policies against the clean-frame reference with hand-written used-variable sets",
    text="Bounded exhaustive model checking on the real design_matrices: for 33 formulas in which 'used' is non-trivial (call arguments, keyword arguments, nested calls, operators in I()/{}, back-quoted names, interactions, group effects and factors, responses incl. calls, y[level], prop) and every missingness pattern of the space over used columns plus three unused ones (one named like a keyword argument): drop == design of the clean frame without exactly the rows missing a used variable, the three matrices row-aligned; error raises ValueError iff such a row exists; pass keeps all rows with NaN in exactly the derived columns (pointwise numeric formulas); other na_action values refused.",
    note="The used-variable set per formula is written by hand in the check; pass is not demanded for categorical or stateful terms."),
+ "C11": dict(design="3/C11", technique="exhaustive enumeration of scope-definition subsets x roles x name kinds x env depths through generated nested callers; first-match reference model of the lookup order",
+   text="Complete enumeration on the real design_matrices: for names used as call argument (recording probe), as callee, as dotted callee (ns.fn, ns.sub.fn) and as back-quoted argument, for a plain name and the name of a built-in, and for env depths 0..3 reached through four generated nested callers each with its own locals and globals: every subset of {data, locals_k, globals_k, extra_namespace} defines the name with a distinct marker while every other frame defines decoys; the observed winner must be the reference model's first match, the empty subset must raise, a winner bound to None still wins, and an Environment instance is used as is (465 configurations).",
+   note="Trusts the reference order stated in the property; deeper env values and names defined through closures are not covered."),
 }
 NOT_YET = {}
 props = [json.loads(l) for l in open(os.path.join(V, "properties.jsonl"))]
